@@ -46,3 +46,79 @@ def gen_strip_accents():
     body += 'def stripAccents : List (Nat × List Nat) :=\n  %s\n\n' % ' ++\n  '.join('stripAccentsChunk%d' % n for n in range(len(chunks)))
     body += 'end Pybtex.Gen\n'
     return 'StripAccents.lean', body
+
+
+# ------------------------------------------------------------------------------------------------
+# Gen/PyStyle.lean: the constants of the Python engine that the model of the shipped styles uses (read from /repo on every run)
+
+PY_STYLES = ['unsrt', 'plain', 'alpha', 'unsrtalpha']
+
+
+def _split_message(msg, markers):
+    """cut a message produced from distinct marker arguments into the literal pieces around them"""
+    pieces, rest = [], msg
+    for m in markers:
+        i = rest.index(m)
+        pieces.append(rest[:i])
+        rest = rest[i + len(m):]
+    pieces.append(rest)
+    return pieces
+
+
+@tables.generator
+def gen_pystyle_tables():
+    import compat  # noqa: F401
+    from pybtex.database import Entry
+    from pybtex.plugin import find_plugin
+    from pybtex.style.template import FieldIsMissing
+    rows = []
+    for st in PY_STYLES:
+        cls = find_plugin('pybtex.style.formatting', st)
+        rows.append((st, cls.default_name_style, cls.default_label_style, cls.default_sorting_style))
+        for v in rows[-1][1:]:
+            if v is not None and not (isinstance(v, str) and v):
+                raise ValueError('style %s: default plug-in name %r is neither None nor a non-empty string' % (st, v))
+    from pybtex.plugin import _DEFAULT_PLUGINS
+    group_defaults = [_DEFAULT_PLUGINS['pybtex.style.names'], _DEFAULT_PLUGINS['pybtex.style.labels'], _DEFAULT_PLUGINS['pybtex.style.sorting']]
+    # the plug-in classes the names select (the model has one constructor per shipped plug-in)
+    for group, names in (('pybtex.style.names', ['plain', 'lastfirst']), ('pybtex.style.labels', ['number', 'alpha']),
+                         ('pybtex.style.sorting', ['none', 'author_year_title'])):
+        for n in names:
+            mod = find_plugin(group, n).__module__
+            if mod != group + '.' + n:
+                raise ValueError('plug-in %s/%s is %s' % (group, n, mod))
+    # message formats, probed with marker arguments
+    e = Entry('weird')
+    e.key = '\x01KEY\x01'
+    miss = _split_message(FieldIsMissing('\x01FIELD\x01', e).args[0], ['\x01FIELD\x01', '\x01KEY\x01'])
+    style = find_plugin('pybtex.style.formatting', 'unsrt')()
+    e2 = Entry('\x01type\x01')
+    e2.key = '\x01KEY\x01'
+    try:
+        style.format_entry('1', e2)
+        raise ValueError('format_entry accepted an undefined entry type')
+    except Exception as exc:   # noqa
+        kind = type(exc).__name__
+        notmpl = _split_message(exc.args[0], ['\x01type\x01', '\x01KEY\x01'])
+    # the entry types the style defines: get_<type>_template methods
+    types = sorted(n[4:-9] for n in dir(style) if n.startswith('get_') and n.endswith('_template'))
+    fallbacks = sorted(n for n in dir(style) if n.startswith('format_') and n[7:] in types)
+    body = 'namespace Pybtex.Gen\n\n'
+    def opt(x):
+        return 'none' if x is None else 'some %s.toList' % tables.lean_str(x)
+    body += '/-- per shipped formatting style: (style, default_name_style, default_label_style, default_sorting_style), class attributes (none = None) -/\n'
+    body += 'def pyStyleDefaults : List (List Char × Option (List Char) × Option (List Char) × Option (List Char)) := [\n  %s]\n\n' % ',\n  '.join(
+        '(%s.toList, %s)' % (tables.lean_str(r[0]), ', '.join(opt(x) for x in r[1:])) for r in rows)
+    body += '/-- `plugin._DEFAULT_PLUGINS` for the groups pybtex.style.names / .labels / .sorting (what `find_plugin(group, None)` loads) -/\n'
+    body += 'def pyGroupDefaults : List Char × List Char × List Char := (%s)\n\n' % ', '.join('%s.toList' % tables.lean_str(x) for x in group_defaults)
+    body += '/-- `FieldIsMissing(field, entry).args[0]` = pieces around the field name and the entry key -/\n'
+    body += 'def fieldIsMissingPieces : List (List Char) := %s\n\n' % tables.lean_strlist(miss)
+    body += '/-- the %s of `format_entry` for an entry type without template: pieces around the type and the key -/\n' % kind
+    body += 'def noTemplatePieces : List (List Char) := %s\n' % tables.lean_strlist(notmpl)
+    body += 'def noTemplateErrorClass : List Char := %s.toList\n\n' % tables.lean_str(kind)
+    body += '/-- the entry types for which the shipped styles have a `get_<type>_template` method (dir() order = sorted) -/\n'
+    body += 'def pyStyleTypes : List (List Char) := %s\n\n' % tables.lean_strlist(types)
+    body += '/-- `format_<type>` methods that would shadow nothing but are consulted when no template method exists -/\n'
+    body += 'def pyStyleFormatMethods : List (List Char) := %s\n\n' % tables.lean_strlist(fallbacks)
+    body += 'end Pybtex.Gen\n'
+    return 'PyStyle.lean', body
